@@ -181,7 +181,8 @@ class TarExtractor(Extractor):
             self.tar.getmember(filename)
             return True
         except KeyError:
-            return False
+            # Archives are not required to carry entries for their directories
+            return any(name.startswith(filename + "/") for name in self.tar.getnames())
 
     def extract(self, target_dir: str) -> None:
         self.tar.extractall(path=target_dir)
